@@ -43,7 +43,7 @@ def stat_case(draw, nfmax=16, ndmax=24):
     warm = draw(st.one_of(st.none(), st.none(), st.none(), st.fixed_dictionaries(dict(
         fs=st.sampled_from([0.5, 0.8, 1.25, 2.0, "sq"]), ds=st.floats(1.0, 359.0), amp=st.sampled_from([1.0, 3.0])))))
     theta = draw(st.one_of(st.none(), st.sampled_from([0.0, 45.0, 180.0, 270.0]), st.floats(-360.0, 720.0)))
-    return dict(fg=fg, dg=dg, dims=dims, specs=specs, dtype=dtype, depth=depth, warm=warm, theta=theta)
+    return dict(fg=fg, dg=dg, dims=dims, specs=specs, dtype=dtype, depth=depth, warm=warm, theta=theta, perm=draw(gen.perms()))
 
 
 def _close(lib, ref, rtol, atol=0.0):
@@ -105,7 +105,9 @@ def check_stats(case, ctx):
     import xarray as xr  # noqa: F401
 
     fg, dg, dims, specs, dtype, depth = case["fg"], case["dg"], case["dims"], case["specs"], case["dtype"], case["depth"]
-    da = gen.build_dataarray(fg, dg, specs, dims, dtype=dtype)
+    da = gen.build_dataarray(fg, dg, specs, dims, dtype=dtype, perm=case.get("perm"))
+    if case.get("perm") is not None:
+        ctx.label("dims-stored-in-another-order")
     has_dir = dg is not None
     f = np.array(fg["f"])
     dirs = np.array(dg["d"]) if has_dir else None
